@@ -27,6 +27,8 @@ type Profile struct {
 	ObsReload   bool // observations include a fresh load of the current bytes
 	DetBias     int  // per-mille probability of deterministic/explicit-time variants
 	FailReaders bool
+	Foreign     int // per-mille probability that a history starts from a foreign (Lean-encoded) image
+	BadMagic    int // per-mille probability, among foreign images, of a non-canonical magic/version
 }
 
 type Gen struct {
